@@ -135,6 +135,7 @@ int main(int argc, char **argv) {
         if (isa<DbgInfoIntrinsic>(&I)) continue;
         json::Object i{{"op", I.getOpcodeName()}, {"ty", tyStr(I.getType())}};
         if (!I.getType()->isVoidTy()) i["id"] = vid(&I);
+        if (auto *PE = dyn_cast<PossiblyExactOperator>(&I)) if (PE->isExact()) i["exact"] = true;
         if (auto &DLoc = I.getDebugLoc()) { i["line"] = (int64_t)DLoc.getLine(); i["col"] = (int64_t)DLoc.getCol(); }
         if (auto *G = dyn_cast<GetElementPtrInst>(&I)) { gepTerms(cast<GEPOperator>(G), DL, i); i["inbounds"] = G->isInBounds(); }
         else if (auto *P = dyn_cast<PHINode>(&I)) {
